@@ -1309,6 +1309,20 @@ impl MachineState {
 }
 
 impl Machine {
+    // on backtracking into a dynamic predicate, the generation its call observed
+    // is the last cell of the choice point at b. it must be restored before any
+    // liveness test: cc may have been overwritten by another dynamic call since.
+    #[inline(always)]
+    fn restore_dynamic_cc(&mut self) {
+        let b = self.machine_st.b;
+        let n = self.machine_st.stack.index_or_frame(b).prelude.num_cells;
+
+        self.machine_st.cc = unsafe {
+            self.machine_st.stack[stack_loc!(OrFrame, b, n - 1)].to_fixnum_or_cut_point_unchecked()
+        }
+        .get_num() as usize;
+    }
+
     pub(super) fn find_living_dynamic_else(&self, mut p: usize) -> Option<(usize, usize)> {
         loop {
             match self.code[p] {
@@ -1758,8 +1772,11 @@ impl Machine {
                     &Instruction::SetValue(reg) => self.machine_st.set_value_instr(reg),
                     &Instruction::SetVoid(n) => self.machine_st.set_void_instr(n),
                     &Instruction::DynamicElse(..) => {
-                        if let FirstOrNext::First = self.machine_st.dynamic_mode {
-                            self.machine_st.cc = self.machine_st.global_clock;
+                        match self.machine_st.dynamic_mode {
+                            FirstOrNext::First => {
+                                self.machine_st.cc = self.machine_st.global_clock;
+                            }
+                            FirstOrNext::Next => self.restore_dynamic_cc(),
                         }
 
                         let p = self.machine_st.p;
@@ -1846,6 +1863,10 @@ impl Machine {
                         }
                     }
                     &Instruction::DynamicInternalElse(..) => {
+                        if let FirstOrNext::Next = self.machine_st.dynamic_mode {
+                            self.restore_dynamic_cc();
+                        }
+
                         let p = self.machine_st.p;
 
                         match self.find_living_dynamic_else(p) {
@@ -3670,6 +3691,10 @@ impl Machine {
                                 }
                             }
                             IndexingLine::DynamicIndexedChoice(_) => {
+                                if let FirstOrNext::Next = self.machine_st.dynamic_mode {
+                                    self.restore_dynamic_cc();
+                                }
+
                                 let p = self.machine_st.p;
 
                                 match self
